@@ -10,7 +10,12 @@ import (
 )
 
 // G is a thin convenience wrapper around *rapid.T.
-type G struct{ T *rapid.T }
+type G struct {
+	T *rapid.T
+	// inBlockBody is a generation-time flag (not a random choice): set while the
+	// text of a resource-like body is being written.
+	inBlockBody bool
+}
 
 func (g G) Int(lo, hi int) int {
 	if hi <= lo {
